@@ -1,6 +1,7 @@
 import CoapVerif.Lemmas.TlsGate
 import CoapVerif.Lemmas.TlsLedger
 import CoapVerif.Lemmas.TlsOrder
+import CoapVerif.Lemmas.TlsNack
 import CoapVerif.Lemmas.PskSelect
 import CoapVerif.Spec.TlsCreds
 /-
@@ -1493,5 +1494,102 @@ theorem icmp_report_names_nothing_queued (c : Ctx) (hi : c.s.inflight = []) (hl 
 /-- … on `okPre`'s session (NON, CON, CON queued, handshake pending), twice: two anonymous notifications, queue unchanged -/
 example : ((hsClient.run okPre).1.run [(.appDisconnect .icmp, []), (.appDisconnect .icmp, [])]) =
     ((hsClient.run okPre).1, [.nack .icmp none none, .nack .icmp none none]) := by decide
+
+/-! ## round R19c — the NACK ledger AFTER the establishment (Lemmas/TlsNack.lean): the send queue is in the accounting
+
+`Nak` is preserved by every function of M on a DTLS session outside block mode, whatever the TLS library answers, no gate
+needed: every serial is held at most once by the library (delay queue, send queue, a detached node), what is held has not been
+reported, `nk j ≤ 2`, and `nk j = 2` only by the pattern `Dbl` (D19a).  Hypotheses of this section: `Ledger0 s` (true of every
+new session), DTLS, no block mode (`blockMode = false`, `lgCrcv = []` — with lg_crcv entries coap_session_disconnected_lkd
+reports the first entry's request when nothing else was reported, which may name a message given up long before). -/
+
+theorem run_nak0 {s : Sess} (hl : Ledger0 s) (hp : s.proto = .dtls) (hb : s.blockMode = false) (hg : s.lgCrcv = [])
+    (evs : List (Ev × List Orc)) (k : Nat) : Nak ([] ++ (s.run evs).2) [] false k { s := (s.run evs).1 } :=
+  run_nak s evs (nak_start s hl.infl hl.srt hl.lt hg hb hp k)
+
+/-- THE NACK LEDGER OF ANY HISTORY (handshake, establishment, ACKs, RSTs, retransmissions, give-ups, refused writes, disconnects,
+release; any answers of the TLS library): at the end
+  * a message the library still holds — in the delay queue or in the send queue — has NOT been reported: no NACK names it;
+  * no message is named by more than TWO NACKs;
+  * a message named by two NACKs is named by the pattern `Dbl`: same reason (not ICMP), nothing but NACKs in between — one call
+    of coap_session_disconnected_lkd (`double_report_only_first_inflight` says which message). -/
+theorem nack_ledger_any_history {s : Sess} (hl : Ledger0 s) (hp : s.proto = .dtls) (hb : s.blockMode = false) (hg : s.lgCrcv = [])
+    (evs : List (Ev × List Orc)) :
+    (∀ q ∈ (s.run evs).1.delayq ++ (s.run evs).1.inflight, nk q.sn (s.run evs).2 = 0) ∧
+    (∀ j, nk j (s.run evs).2 ≤ 2) ∧ (∀ j, nk j (s.run evs).2 = 2 → Dbl j (s.run evs).2) := by
+  have h := run_nak0 hl hp hb hg evs 0
+  refine ⟨fun q hq => ?_, fun j => ?_, fun j hj => ?_⟩
+  · simpa using h.z q.sn (hc_pos_of_mem _ q hq)
+  · simpa using h.le2 j
+  · simpa using h.dbl j (by simpa using hj)
+
+/-- (1) A message queued during the handshake is NOT NACKed while the library holds it: take any history `pre` (the handshake
+phase), a message `q` in the delay queue at its end, ANY continuation `rest`; if at the end a node with `q`'s serial is still in
+the delay queue or in the send queue (the session has not failed, was not released, the message was not given up after
+MAX_RETRANSMIT, not reset, not acknowledged) then no NACK in the WHOLE trace names it. -/
+theorem queued_not_nacked_while_held {s : Sess} (hl : Ledger0 s) (hp : s.proto = .dtls) (hb : s.blockMode = false)
+    (hg : s.lgCrcv = []) (pre rest : List (Ev × List Orc)) (q : QMsg) (_hq : q ∈ (s.run pre).1.delayq)
+    (q2 : QMsg) (hq2 : q2 ∈ (s.run (pre ++ rest)).1.delayq ++ (s.run (pre ++ rest)).1.inflight) (hsn : q2.sn = q.sn) :
+    nk q.sn (s.run (pre ++ rest)).2 = 0 := by
+  rw [← hsn]
+  exact (nack_ledger_any_history hl hp hb hg (pre ++ rest)).1 q2 hq2
+
+theorem step_appDisconnect (s : Sess) (r : Nack) (o : List Orc) (hfr : s.freed = false) :
+    s.step (.appDisconnect r) o =
+      ((({ s := s, orc := o } : Ctx).disconnected r).s, (({ s := s, orc := o } : Ctx).disconnected r).out) := by
+  simp [Sess.step, Sess.stepCtx, hfr]
+
+/-- (3) D19a IS THE ONLY WAY A MESSAGE IS REPORTED TWICE.  In any history: at most two NACKs name a message, and two only in the
+pattern `Dbl` — both inside one call of coap_session_disconnected_lkd; and for the event that produces it —
+coap_session_disconnected(reason ≠ ICMP) after ANY history — the event's NACKs name a serial twice EXACTLY WHEN it is the
+Confirmable at the head of the send queue (reported by the first loop of coap_session_disconnected_lkd and again by
+coap_cancel_session_messages); every other message on either queue is named at most once. -/
+theorem double_report_only_first_inflight {s : Sess} (hl : Ledger0 s) (hp : s.proto = .dtls) (hb : s.blockMode = false)
+    (hg : s.lgCrcv = []) (evs : List (Ev × List Orc)) :
+    (∀ j, nk j (s.run evs).2 ≤ 2 ∧ (nk j (s.run evs).2 = 2 → Dbl j (s.run evs).2)) ∧
+    (∀ (r : Nack) (o : List Orc) (j : Nat), r ≠ .icmp → (s.run evs).1.freed = false →
+      (nk j ((s.run evs).1.step (.appDisconnect r) o).2 = 2 ↔
+        ∃ q0 tl, (s.run evs).1.inflight = q0 :: tl ∧ q0.sn = j ∧ q0.con = true)) := by
+  have hA := nack_ledger_any_history hl hp hb hg evs
+  refine ⟨fun j => ⟨hA.2.1 j, hA.2.2 j⟩, ?_⟩
+  intro r o j hr hfr
+  have h := run_nak0 hl hp hb hg evs 0
+  have hc' : Nak ([] ++ (s.run evs).2) [] false 0 { s := (s.run evs).1, orc := o } :=
+    ⟨h.nd, h.lt, h.z, h.fut, h.le2, h.dbl, h.lg, h.bm, h.proto, h.trk⟩
+  rw [step_appDisconnect _ r o hfr]
+  simp only [disconnected_nk r hr j, nk_nil, Nat.zero_add]
+  exact (disc_counts r hr hc' j).2
+
+/-- (2) AFTER A LATER FAILURE each still-unacknowledged Confirmable that was queued during the handshake gets AT LEAST ONE NACK and
+— unless it is the first in-flight message of the session (D19a) — EXACTLY ONE.  `pre`: the handshake phase, `q` queued at its
+end; `rest`: ANY continuation (establishment, flushes, retransmissions, …; any TLS-library answers) at whose end a Confirmable
+node with `q`'s serial is still on the delay queue or the send queue; then coap_session_disconnected(reason ≠ ICMP).  Over the
+WHOLE trace: `q` is named by at least one NACK, by at most two, by two exactly when it was the head of the send queue; both
+queues are empty afterwards. -/
+theorem queued_con_nacked_on_later_failure {s : Sess} (hl : Ledger0 s) (hp : s.proto = .dtls) (hb : s.blockMode = false)
+    (hg : s.lgCrcv = []) (pre rest : List (Ev × List Orc)) (q : QMsg) (_hq : q ∈ (s.run pre).1.delayq)
+    (q2 : QMsg) (hq2 : q2 ∈ (s.run (pre ++ rest)).1.delayq ++ (s.run (pre ++ rest)).1.inflight) (hsn : q2.sn = q.sn)
+    (hcon : q2.con = true) (hfr : (s.run (pre ++ rest)).1.freed = false) (r : Nack) (hr : r ≠ .icmp) (o : List Orc) :
+    1 ≤ nk q.sn (s.run (pre ++ rest ++ [(.appDisconnect r, o)])).2 ∧
+    nk q.sn (s.run (pre ++ rest ++ [(.appDisconnect r, o)])).2 ≤ 2 ∧
+    (nk q.sn (s.run (pre ++ rest ++ [(.appDisconnect r, o)])).2 = 2 ↔
+      ∃ q0 tl, (s.run (pre ++ rest)).1.inflight = q0 :: tl ∧ q0.sn = q.sn ∧ q0.con = true) ∧
+    (s.run (pre ++ rest ++ [(.appDisconnect r, o)])).1.delayq = [] ∧
+    (s.run (pre ++ rest ++ [(.appDisconnect r, o)])).1.inflight = [] := by
+  have h := run_nak0 hl hp hb hg (pre ++ rest) 0
+  have hc' : Nak ([] ++ (s.run (pre ++ rest)).2) [] false 0 { s := (s.run (pre ++ rest)).1, orc := o } :=
+    ⟨h.nd, h.lt, h.z, h.fut, h.le2, h.dbl, h.lg, h.bm, h.proto, h.trk⟩
+  have hd := disc_counts r hr hc' q.sn
+  have hz := (nack_ledger_any_history hl hp hb hg (pre ++ rest)).1 q2 hq2
+  rw [hsn] at hz
+  have hle := (nack_ledger_any_history hl hp hb hg (pre ++ rest ++ [(.appDisconnect r, o)])).2.1 q.sn
+  have hpos := hd.1 ⟨q2, hq2, hsn, hcon⟩
+  have hqs := disconnected_queues (c := { s := (s.run (pre ++ rest)).1, orc := o }) r hr
+  rw [run_append (s := s) (a := pre ++ rest)] at hle ⊢
+  simp only [Sess.run, step_appDisconnect _ r o hfr, List.append_nil, nk_append, disconnected_nk r hr q.sn, nk_nil,
+    Nat.zero_add, hz] at hle ⊢
+  have hd2 := hd.2
+  simp only [nk_append] at hpos hd2
+  exact ⟨hpos, hle, hd2, hqs.1, hqs.2⟩
 
 end Coap.C19
